@@ -199,6 +199,13 @@ func instrumentYield(f *ast.File) {
 	ast.Inspect(f, func(n ast.Node) bool {
 		switch x := n.(type) {
 		case *ast.BlockStmt:
+			// the body of a switch / select holds clauses, not statements: the clause bodies get the yields
+			if len(x.List) > 0 {
+				switch x.List[0].(type) {
+				case *ast.CaseClause, *ast.CommClause:
+					return true
+				}
+			}
 			x.List = withYields(x.List)
 		case *ast.CaseClause:
 			x.Body = withYields(x.Body)
